@@ -560,7 +560,8 @@ Definition mutating_engine_fns : list bytes :=
    bs "persist"; bs "incr_by"; bs "flush_db"; bs "append"; bs "setrange"; bs "rename";
    bs "lpush"; bs "rpush"; bs "lpop"; bs "rpop"; bs "lset"; bs "ltrim"; bs "lrem";
    bs "sadd"; bs "srem"; bs "spop"; bs "hset"; bs "hdel"; bs "hincrby";
-   bs "zadd"; bs "zrem"; bs "zincrby"; bs "xadd"; bs "xadd_with_id"; bs "xtrim"; bs "xdel"].
+   bs "zadd"; bs "zrem"; bs "zincrby"; bs "xadd"; bs "xadd_with_id"; bs "xtrim"; bs "xdel";
+   bs "mark_key_modified"].        (* ed8ba04: records a change the consumer-group handlers made behind the Arc *)
 Lemma every_mutating_fn_marks :
   forallb (fun f => 1 <=? census_marks f) mutating_engine_fns = true.
 Proof. vm_compute. reflexivity. Qed.
